@@ -179,6 +179,18 @@ def render_test(stats):
     if out.status != "ok":
         print("SELFTEST FAIL render: %s %s" % (out.status, out.msg))
         return False
+
+    def hc(cx):
+        # an unmodelled numeric C function concretises its integer argument: one path per feasible value
+        import math
+        v = cx.int("v", 1, 40)
+        r = rt.call(math.log, v, 10) if cx.sym else math.log(v, 10)
+        cx.observe("log", int(r * 1000))
+    out = explore_serial(hc, LiftedSet(), {}, timeout=120, validate_every=1)
+    stats["free_paths"] += out.stats.paths
+    if out.status != "ok" or out.stats.paths != 40:
+        print("SELFTEST FAIL concretise: %s %s paths=%d" % (out.status, out.msg, out.stats.paths))
+        return False
     return True
 
 
